@@ -458,7 +458,10 @@ class XformWorld:
         self.n_roots = 0
         self.step = 0
         self.xf: Dict[Tuple[int, str], Any] = {}  # persistent ImageTransformer / PointSetTransformer per (handle, kind)
-        self.nohook: Dict[int, Any] = {}  # hook containers (kept alive) from which the update hook was removed
+        self.nohook: Dict[int, Any] = {}  # hook groups from which the update hook was removed
+        self.obj_group: Dict[int, Any] = {}  # id(object) -> (object, hook group), for objects made by deep copies
+        self.cont_group: Dict[int, Any] = {}  # id(hook container) -> (container, hook group)
+        self.next_group = 0
 
     # ------------------------------------------------------------ bookkeeping
     def close(self):
@@ -1099,7 +1102,7 @@ class _Ops:
 
             gk = gen.grid_key(x.obj.grid())
             ent = self.xf.get((x.hid, via))
-            if ent is None or ent[1] != gk or ent[0].transform is not x.obj:
+            if ent is None or ent[1] != gk:
                 stc, mod = self.guarded(lambda: ImageTransformer(x.obj) if via == "image" else PointSetTransformer(x.obj))
                 if stc != "ok":
                     return StepResult("expected_error", "transformer-ctor")
@@ -1286,15 +1289,37 @@ class _Ops:
         return out
 
     # -------------------------------------------------------- explicit-update protocol (update hook removed)
+    def hook_group(self, obj) -> int:
+        """Model identity of the set of objects that share update hooks: shallow copies share the hook container of
+        their source (documented), a deep copy starts a set of its own -- assigned by the *operation* that made the
+        object, not read off the object, so that a deep copy which wrongly shares the container is not believed."""
+        e = self.obj_group.get(id(obj))
+        if e is not None and e[0] is obj:
+            return e[1]
+        c = obj._forward_pre_hooks
+        e = self.cont_group.get(id(c))
+        if e is None or e[0] is not c:
+            e = (c, self.next_group)
+            self.next_group += 1
+            self.cont_group[id(c)] = e
+        return e[1]
+
     def hookless(self, x) -> bool:
-        """The forward pre-hook that calls update() was removed from the hook container x's object uses
-        (shallow copies share that container by documentation)."""
-        return id(x.obj._forward_pre_hooks) in self.nohook
+        """The forward pre-hook that calls update() was removed from the hook set x's object belongs to."""
+        return self.hook_group(x.obj) in self.nohook
 
     def inherit_hooks(self, src, dst):
         """Deep copies have their own hook containers with the same content."""
-        if id(src._forward_pre_hooks) in self.nohook:
-            self.nohook[id(dst._forward_pre_hooks)] = dst._forward_pre_hooks
+        g_src = self.hook_group(src)
+        g_new = self.next_group
+        self.next_group += 1
+        self.obj_group[id(dst)] = (dst, g_new)
+        c = dst._forward_pre_hooks
+        known = self.cont_group.get(id(c))
+        if known is None or known[0] is not c:
+            self.cont_group[id(c)] = (c, g_new)  # later shallow copies of dst belong to dst's set
+        if g_src in self.nohook:
+            self.nohook[g_new] = True
         if isinstance(src, CompositeTransform) and isinstance(dst, CompositeTransform):
             for a, b in zip(src.transforms(), dst.transforms()):
                 self.inherit_hooks(a, b)
@@ -1309,24 +1334,25 @@ class _Ops:
         t = x.obj
         cont = t._forward_pre_hooks
         mode = op["mode"]
+        grp = self.hook_group(t)
         if mode == "remove":
             hd = getattr(t, "_update_hook_handle", None)
-            if id(cont) in self.nohook or hd is None or hd.id not in cont or len(cont) != 1:
+            if grp in self.nohook or hd is None or hd.id not in cont or len(cont) != 1:
                 return StepResult("skipped")
             st, r = self.guarded(lambda: t.remove_update_hook())
             bad = self.classify(st, r, x, "remove_update_hook")
             if bad:
                 return bad
-            self.nohook[id(cont)] = cont
+            self.nohook[grp] = True
             self.c["probes"]["update_hook_removed"] += 1
             return StepResult("ok", "hook-removed")
-        if id(cont) not in self.nohook:
+        if grp not in self.nohook:
             return StepResult("skipped")
         st, r = self.guarded(lambda: t.register_update_hook())
         bad = self.classify(st, r, x, "register_update_hook")
         if bad:
             return bad
-        del self.nohook[id(cont)]
+        del self.nohook[grp]
         self.c["probes"]["update_hook_registered_again"] += 1
         self.note_change(x, "register_update_hook")
         return StepResult("ok", "hook-registered")
@@ -1534,7 +1560,26 @@ class _Ops:
         if x is None:
             return StepResult("skipped")
         c = self.cond_tensor(op["cseed"])
-        st, r = self.guarded(lambda: x.obj.condition_(c))
+        thru = op.get("thru")
+        if thru:
+            # through a spatial transformer module created earlier for this transform: SpatialTransformer.condition(c)
+            # returns a shallow copy of the *transformer* and conditions the transform both share (documented behaviour
+            # of this code base: the transform is held by reference); condition_(c) does the same in place
+            from deepali.spatial.transformer import ImageTransformer, PointSetTransformer
+
+            kind_ = "image" if thru.startswith("image") else "pointset"
+            ent = self.xf.get((x.hid, kind_))
+            if ent is None:
+                stc, mod = self.guarded(lambda: ImageTransformer(x.obj) if kind_ == "image" else PointSetTransformer(x.obj))
+                if stc != "ok":
+                    return StepResult("expected_error", "transformer-ctor")
+                ent = (mod, gen.grid_key(x.obj.grid()))
+                self.xf[(x.hid, kind_)] = ent
+            mod = ent[0]
+            self.c["probes"]["condition_through_transformer"] += 1
+            st, r = self.guarded((lambda: mod.condition_(c)) if thru.endswith("_") else (lambda: mod.condition(c)))
+        else:
+            st, r = self.guarded(lambda: x.obj.condition_(c))
         bad = self.classify(st, r, x, "condition_")
         if bad:
             return bad
@@ -2257,10 +2302,9 @@ class _Ops:
             def neutral():
                 t_ = x.obj
                 if how == "freeze":
-                    flags = [p.requires_grad for p in t_.parameters()]
-                    t_.requires_grad_(False)
-                    for p, f_ in zip(t_.parameters(), flags):
-                        p.requires_grad_(f_)
+                    t_.requires_grad_(False)  # stays frozen until an 'unfreeze'
+                elif how == "unfreeze":
+                    t_.requires_grad_(True)
                 elif how == "train-eval":
                     mode = t_.training
                     t_.eval()
@@ -2652,6 +2696,17 @@ class _Gen:
             if op is not None and op.get("h") == keep_hot[0]:
                 self.last_kind = None
                 return op
+        follow = 0.5 if sc["profile"] == "C07" else 0.15
+        if last == "compose" and hot0 is not None and hot0.is_comp and offers_inverse(hot0.obj) and len(live) < sc["max_handles"] and rng.chance(follow):
+            # the composite just built is inverted as a whole (reverse order, every member inverted, nested composites included)
+            self.last_kind = "inverse"
+            op = {"op": "inverse", "h": hot0.hid, "link": bool(rng.chance(0.5)), "ub": bool(rng.chance(0.5)), "out": self.alloc(HID_BLOCK)}
+            if rng.chance(0.2):
+                op.update({"via": "inv", "link": True, "ub": True})
+            return op
+        if last == "inverse" and self.pairs and self.pairs[-1].valid and rng.chance(follow):
+            self.last_kind = "roundtrip"
+            return {"op": "roundtrip", "pair": len(self.pairs) - 1, "pseed": rng.subseed()}
         if last in ("grid_", "data_", "condition_", "inplace", "reset", "fit", "link_") and self.hot and rng.chance(0.2):
             # the same kind of state change twice in a row on the same handle (an update lost or skipped because
             # "nothing changed" shows only then)
@@ -2777,7 +2832,12 @@ class _Gen:
     def gen_condition_(self, rng):
         x = self.pick(rng, lambda y: any(kind_of(e.obj) == "C" for e in self.elems(y)) or
                       (isinstance(y.obj, GenericSpatialTransform) and kind_of(y.obj) == "C") or rng.chance(0.1))
-        return None if x is None else {"op": "condition_", "h": x.hid, "cseed": rng.subseed()}
+        if x is None:
+            return None
+        op = {"op": "condition_", "h": x.hid, "cseed": rng.subseed()}
+        if rng.chance(0.3):
+            op["thru"] = rng.choice(["image", "image_", "pointset", "pointset_"])
+        return op
 
     def gen_copy(self, rng):
         x = self.pick(rng)
@@ -2858,6 +2918,15 @@ class _Gen:
         comps = [y for y in live if y.is_comp and not generic_pred(y.obj)]
         if comps and rng.chance(0.35) and not any(m.is_comp for m in ms):
             ms[0] = rng.choice(comps)  # a composite nested in a composite
+        pairs = [p for p in self.pairs if p.valid and self.get(p.t) and self.get(p.i) and not self.get(p.t).is_comp]
+        if pairs and rng.chance(0.25):
+            # a transform next to its own inverse (they share parameters, and possibly buffers) inside one composite
+            pr = rng.choice(pairs)
+            two = [self.get(pr.t), self.get(pr.i)]
+            if rng.chance(0.5):
+                two.reverse()
+            rest = [m for m in ms if m.obj is not two[0].obj and m.obj is not two[1].obj][: rng.choice([0, 1])]
+            ms = two[:1] + rest + two[1:]
         if len({id(m.obj) for m in ms}) != len(ms):
             return None
         kind = rng.weighted([("seq", 3), ("multi", 1)])
@@ -2943,7 +3012,7 @@ class _Gen:
         return {"op": "hook", "h": x.hid, "mode": "remove"}
 
     def gen_cast(self, rng):
-        how = rng.weighted([("double-float", 3), ("freeze", 1.5), ("train-eval", 1), ("zero_grad", 1), ("to-same", 1)])
+        how = rng.weighted([("double-float", 3), ("freeze", 1.5), ("unfreeze", 1.5), ("train-eval", 1), ("zero_grad", 1), ("to-same", 1)])
         if how != "double-float":
             x = self.pick(rng, lambda y: not self.has_none(y))
             return None if x is None else {"op": "cast", "h": x.hid, "how": how}
@@ -3020,7 +3089,7 @@ class XformEngine:
             o = dict(op)
             o.pop("via")
             out.append(o)
-        for key in ("nograd", "arm", "inv_first"):
+        for key in ("nograd", "arm", "inv_first", "thru"):
             if op.get(key):
                 o = dict(op)
                 o.pop(key)
